@@ -130,6 +130,47 @@ def run_vector(vec):
                 problems.append(tag + f"outcome {outcome!r}, but processes {vec['failing']} are out of balance")
             if not want_fail and outcome != "ok":
                 problems.append(tag + f"outcome {outcome!r}, but every balance is within the tolerance")
+    # ---- the same object after all its values were rescaled by 2^k: verdicts follow the CURRENT values
+    k = vec.get("rescale", 0)
+    if k and not vec["anynan"]:
+        try:
+            mfa = build(vec, default_tol / 2)
+            sink = Capture()
+            root.addHandler(sink)
+            try:
+                mfa.check_mass_balance(raise_error=False)      # a first round of checks on the original magnitudes
+                mfa.check_flows(raise_error=False)
+            finally:
+                root.removeHandler(sink)
+            fac = 2.0 ** k
+            for f in mfa.flows.values():
+                f.values[...] = f.values * fac
+            for st in mfa.stocks.values():
+                for a in (st.stock, st.inflow, st.outflow):
+                    a.values[...] = a.values * fac
+            for raise_error in (True, False):
+                cap = Capture()
+                root.addHandler(cap)
+                old_level = root.level
+                root.setLevel(logging.WARNING)
+                outcome = "ok"
+                try:
+                    mfa.check_mass_balance(raise_error=raise_error)
+                    if cap.records:
+                        outcome = "warned"
+                except ValueError:
+                    outcome = "raised"
+                finally:
+                    root.removeHandler(cap)
+                    root.setLevel(old_level)
+                want_fail = vec["verdict"] == "fail"
+                bad = "raised" if raise_error else "warned"
+                if (want_fail and outcome != bad) or (not want_fail and outcome != "ok"):
+                    problems.append(desc + f"check_mass_balance(tolerance=default, raise_error={raise_error}) after rescaling all values by "
+                                           f"2^{k} on the same object: {{C02}} outcome {outcome!r}, the specification says "
+                                           f"{'fail' if want_fail else 'ok'} (the default tolerance must follow the current magnitudes)")
+        except Exception as e:
+            problems.append(desc + f"{{C02}} rescaled re-check raised {type(e).__name__}: {str(e)[:150]}")
     # ---- check_flows (always the default tolerance)
     try:
         mfa = build(vec, default_tol / 2)
